@@ -166,14 +166,15 @@ def wrapper_random(run, prop, classes, n, all_rejects):
 
 def handoff_race(run, prop, classes, all_rejects):
     """Real-time schedules the bubble cannot run: a waiter gives up while unblock() holds the limiter mutex mid hand-off."""
-    out, _ = run.go("^TestHandoffGiveUpRace$", env={"VERIF_N": 6 if run.tier == "thorough" else 2}, timeout=600)
-    tp = os.path.join(out, "handoff_trace.ndjson")
-    rejects, total = validate_sharded(run, "WrapperTrace", "Wrapper_trace.cfg", tp)
-    run.events += total
-    n = sum(1 for line in open(tp) if '"ev":"Reset"' in line)
-    run.traces += n
-    run.extra["handoff_giveup_race_scenarios"] = n
-    handle_rejects(run, prop, rejects, tp, classes, "handoff-race", all_rejects)
+    out, _ = run.go("^(TestHandoffGiveUpRace|TestUnblockRace)$", env={"VERIF_N": 6 if run.tier == "thorough" else 2}, timeout=600)
+    for fname, label in (("handoff_trace.ndjson", "handoff-race"), ("unblock_trace.ndjson", "unblock-race")):
+        tp = os.path.join(out, fname)
+        rejects, total = validate_sharded(run, "WrapperTrace", "Wrapper_trace.cfg", tp)
+        run.events += total
+        n = sum(1 for line in open(tp) if '"ev":"Reset"' in line)
+        run.traces += n
+        run.extra[label.replace("-", "_") + "_scenarios"] = n
+        handle_rejects(run, prop, rejects, tp, classes, label, all_rejects)
 
 
 def wrapper_pipeline(run, prop, names, negs, classes, random_n=0, extra_invs=None, handoff=False):
@@ -262,7 +263,7 @@ def c11(run):
     th = run.tier == "thorough"
     # q4 / q4l: four callers, so that an arrival can take the freed token before unblock (the refused hand-off path)
     names = ["q3l", "q4"] + (["q3", "q4l", "q3n", "q4t"] if th else [])
-    wrapper_pipeline(run, "C11", names, [], {"order"}, random_n=4000 if th else 800)
+    wrapper_pipeline(run, "C11", names, [], {"order"}, random_n=4000 if th else 800, handoff=True)
 
 
 def c12(run):
@@ -280,7 +281,7 @@ def c13(run):
 def c19(run):
     th = run.tier == "thorough"
     names = ["b3f", "q3n", "b3l2"] + (["b4", "q4", "q4l", "q4t", "q3", "q3l"] if th else [])
-    wrapper_pipeline(run, "C19", names, [], {"gate", "starved", "lostwake"}, random_n=4000 if th else 800, extra_invs=LIVE)
+    wrapper_pipeline(run, "C19", names, [], {"gate", "starved", "lostwake"}, random_n=4000 if th else 800, extra_invs=LIVE, handoff=True)
 
 
 # ------------------------------------------------------------------ DefaultLimiter (C09 C05, parts of C02 C20)
@@ -773,9 +774,10 @@ def c20(run):
             continue
         seen.add(rj["trace"])
         tr = [x for x in rows if x["trace"] == rj["trace"]]
+        kind = tr[0]["cfg"]["kind"] if "cfg" in tr[0] else tr[0].get("kind", "?")
         run.report("%s registry: sequence %d rejected (%s) at %s: expected %s, observed %s" % (
-            tr[0]["cfg"]["kind"], rj["trace"], rj["why"], json.dumps(rj["op"]), json.dumps(rj["expected"]), json.dumps(rj["logged"])),
-            {"sequence": tr, "reject": rj, "rerun": "VERIF_SEED=%d bin/check C20" % run.seed}, {"kind": tr[0]["cfg"]["kind"], "op": rj["op"].get("op")})
+            kind, rj["trace"], rj["why"], json.dumps(rj["op"]), json.dumps(rj["expected"]), json.dumps(rj["logged"])),
+            {"sequence": tr, "reject": rj, "rerun": "VERIF_SEED=%d bin/check C20" % run.seed}, {"kind": kind, "op": rj["op"].get("op")})
     # emission: in-flight sample at the admission decision and the limit gauge, through the Limiter contract
     def lim_rj(r, tr):
         e, g = r.get("expected") or {}, r.get("logged") or {}
